@@ -18,9 +18,9 @@ import (
 	"github.com/lavanet/lava/v5/protocol/lavasession"
 	"github.com/lavanet/lava/v5/utils"
 	specutils "github.com/lavanet/lava/v5/utils/keeper"
-	"github.com/lavanet/lava/v5/zz_verif/simrt"
 	pairingtypes "github.com/lavanet/lava/v5/x/pairing/types"
 	spectypes "github.com/lavanet/lava/v5/x/spec/types"
+	"github.com/lavanet/lava/v5/zz_verif/simrt"
 	"github.com/rs/zerolog"
 	zerologlog "github.com/rs/zerolog/log"
 )
